@@ -206,6 +206,90 @@ func oracleC15(c *CaseC15) *Failure {
 	return nil
 }
 
+// relatedValue returns a copy of v with one small edit that keeps every length and the byte sum.
+func relatedValue(rt *rapid.T, v *Value) *Value {
+	c := v.Clone()
+	type ref struct {
+		val *Value
+		i   int
+	}
+	var texts, nums []ref
+	var walk func(x *Value, depth int)
+	walk = func(x *Value, depth int) {
+		if x == nil || depth > 4 {
+			return
+		}
+		for i, f := range Types[x.Type].Fields {
+			switch f.Kind {
+			case "fixtext":
+				if i != Types[x.Type].FieldIndex(discOf(Types[x.Type])) {
+					texts = append(texts, ref{x, i})
+				}
+			case "num":
+				if i != Types[x.Type].FieldIndex(discOf(Types[x.Type])) {
+					nums = append(nums, ref{x, i})
+				}
+			case "obj", "objval", "dyn":
+				walk(x.F[i].O, depth+1)
+			case "objlist":
+				if len(x.F[i].OL) > 0 {
+					x.F[i].OL[0] = x.F[i].OL[0].Clone()
+					walk(x.F[i].OL[0], depth+1)
+				}
+			}
+		}
+	}
+	walk(c, 0)
+	switch rapid.IntRange(0, 2).Draw(rt, "edit") {
+	case 0: // swap two texts of equal width
+		for tries := 0; tries < 8 && len(texts) >= 2; tries++ {
+			a := texts[rapid.IntRange(0, len(texts)-1).Draw(rt, "ta")]
+			b := texts[rapid.IntRange(0, len(texts)-1).Draw(rt, "tb")]
+			wa, wb := Types[a.val.Type].Fields[a.i].Width, Types[b.val.Type].Fields[b.i].Width
+			if (a.val != b.val || a.i != b.i) && wa == wb && !bytes.Equal(a.val.F[a.i].T, b.val.F[b.i].T) {
+				a.val.F[a.i].T, b.val.F[b.i].T = b.val.F[b.i].T, a.val.F[a.i].T
+				return c
+			}
+		}
+		fallthrough
+	case 1: // reverse one text
+		for tries := 0; tries < 8 && len(texts) >= 1; tries++ {
+			a := texts[rapid.IntRange(0, len(texts)-1).Draw(rt, "tr")]
+			t := a.val.F[a.i].T
+			if len(t) >= 2 && t[0] != t[len(t)-1] {
+				r := make(HexBytes, len(t))
+				for k := range t {
+					r[len(t)-1-k] = t[k]
+				}
+				a.val.F[a.i].T = r
+				return c
+			}
+		}
+		fallthrough
+	default: // change one number (swap two of its bytes if possible, else flip a bit)
+		if len(nums) > 0 {
+			a := nums[rapid.IntRange(0, len(nums)-1).Draw(rt, "nn")]
+			n := a.val.F[a.i].N
+			sz := NSize(Types[a.val.Type].Fields[a.i].NType)
+			if sz >= 2 && byte(n) != byte(n>>8) {
+				lo, hi := n&0xff, (n>>8)&0xff
+				n = n&^0xffff | lo<<8 | hi
+			} else {
+				n ^= 1
+			}
+			a.val.F[a.i].N = n
+		}
+	}
+	return c
+}
+
+func discOf(ts *TypeSchema) string {
+	if di := ts.DynIndex(); di >= 0 {
+		return ts.Fields[di].Disc
+	}
+	return ""
+}
+
 func listShape(v *Value, out *[]string) {
 	if v == nil {
 		*out = append(*out, "nil")
@@ -253,7 +337,13 @@ func TestC15(t *testing.T) {
 					cls = append(cls, "truncated-input(both must fail alike)")
 				}
 				c := &CaseC15{Type: tn, W: w}
-				if rapid.Bool().Draw(rt, "via") {
+				if rel := rapid.IntRange(0, 3).Draw(rt, "related"); rel == 0 {
+					// the receiver holds a message that differs from the incoming one only slightly
+					// (one field changed, two equal-width texts swapped, one text reversed: same length, same byte sum)
+					c.Via = "decode"
+					c.Dirty = relatedValue(rt, wv)
+					cls = append(cls, "dirty-is-a-near-copy-of-the-incoming-message")
+				} else if rapid.Bool().Draw(rt, "via") {
 					c.Via = "decode"
 					d, _ := GenValue(rt, tn, o)
 					c.Dirty = d
@@ -271,6 +361,9 @@ func TestC15(t *testing.T) {
 				nt := fmt.Sprint(a) != fmt.Sprint(b)
 				if nt {
 					cls = append(cls, "receiver-differs-in-list-length-or-part-type")
+				}
+				if len(cls) > 0 && cls[0] == "dirty-is-a-near-copy-of-the-incoming-message" || len(cls) > 1 && cls[1] == "dirty-is-a-near-copy-of-the-incoming-message" {
+					nt = true
 				}
 				Col.Case(Hash64(JSONOf(c)), nt, cls...)
 				Col.Program(tn)
